@@ -26,6 +26,7 @@ META = {
 META["decides"] += " (As built: R-1 reads the strings off element 0 of the structure function's own array; R-3/R-4 are decided per PUBLIC entry point with all crate-local callees expanded in place - it does not matter how the work is split into private helpers; public functions outside the tables that also build a structure are noted.)"
 META["decides"] += ' R-2 also: map form of ProtectedHeader, un-overridden byte-level API; R-3 also: derived Clone, arguments not edited in place.'
 
+META["decides"] += " R-5 also: retained wire bytes exist only in decoded headers - every construction of ProtectedHeader is the wire constructor, a derived Clone / Default or stores None, the builder setters discard retained bytes, nobody else writes original_data (C02 R-1's recogniser)."
 
 def check(ctx):
     S.check_context_strings(ctx, "R-1", SFN)
